@@ -426,7 +426,17 @@ func (sw *scanWriter) writeFilled(opts ScanWriterParams) {
 				if i > 0 {
 					jsfields += `,`
 				}
-				f := opts.obj.Fields().Get(name)
+				// The names are those of stored fields. Look the stored field
+				// up, as the RESP output does: List.Get would resolve a dotted
+				// name such as "props.speed" inside a JSON field "props".
+				f := field.ZeroField
+				opts.obj.Fields().Scan(func(g field.Field) bool {
+					if g.Name() == name {
+						f = g
+						return false
+					}
+					return g.Name() < name
+				})
 				jsfields += f.Value().JSON()
 				i++
 				return true
